@@ -637,6 +637,7 @@ func c03(run *core.Run, replay string) {
 		return results[i].CPUms, fmt.Sprintf("%s %v j=%d", tcs[i].R.Name, tcs[i].Mut, tcs[i].Jobs)
 	})
 	sites := map[string]int{}
+	cpuConfirmed := 0
 	for i, r := range results {
 		c := tcs[i]
 		run.Eval(1)
@@ -657,6 +658,11 @@ func c03(run *core.Run, replay string) {
 			run.Violate(fmt.Sprintf("C03 process-death mutation=%s site=%s", c.Mut.Kind, site), fmt.Sprintf("[%s jobs=%d %v] decoding killed the hosting process: %s", c.R.Name, c.Jobs, c.Mut, core.Trunc(r.Detail, 1800)), c)
 			continue
 		case "cpu":
+			if cpuConfirmed >= 3 {
+				// three inputs already exceeded the budget twice: the verdict stands, the others are not re-run (each re-run costs 8 CPU-minutes)
+				run.Inconclusive(fmt.Sprintf("CPU budget exceeded once, not re-run (3 confirmed already): %s %v", c.R.Name, c.Mut))
+				continue
+			}
 			// isolated re-run with 4x the budget; only a second expiry is a violation
 			rr := core.RunIsolated("c03", []any{c}, core.IsoOpts{Workers: 1, CPUBudget: 480 * time.Second, WallBudget: 40 * time.Minute})
 			if rr[0].Status == "cpu" && (strings.Contains(rr[0].Detail, "runtime.mallocgc") || strings.Contains(rr[0].Detail, "runtime.memclrNoHeapPointers")) {
@@ -664,6 +670,7 @@ func c03(run *core.Run, replay string) {
 				// tasks spin: legitimate work whose CPU cost scales with machine load, not a hang
 				run.Inconclusive(fmt.Sprintf("CPU budget exceeded twice during a large allocation: %s %v", c.R.Name, c.Mut))
 			} else if rr[0].Status == "cpu" {
+				cpuConfirmed++
 				run.Violate("C03 cpu-budget-exceeded-twice mutation="+c.Mut.Kind, fmt.Sprintf("[%s jobs=%d %v] 120 s then 480 s of CPU without finishing: %s", c.R.Name, c.Jobs, c.Mut, core.Trunc(rr[0].Detail, 1500)), c)
 			} else {
 				run.Inconclusive(fmt.Sprintf("CPU budget exceeded once only: %s %v", c.R.Name, c.Mut))
